@@ -137,8 +137,10 @@ Definition doc_resize (ifm ofm : list Z) (align : bool) : bool :=
   (py_len ifm =? 4) &&
   (((ih =? dn n 0) && (iw =? dn n 0)) || list_eqb ifm ofm ||
    (if align
-    then existsb (fun k => scaled_by k (ih - 1) (iw - 1) (oh - 1) (ow - 1)) [dn n 3; dn n 4; dn n 5]
-    else existsb (fun k => scaled_by k ih iw oh ow) [dn n 3; dn n 4; dn n 5])).
+    then (* a scaling (OFM-1)/(IFM-1) exists only when no IFM dimension is 1 *)
+         negb (ih - 1 =? 0) && negb (iw - 1 =? 0) &&
+         existsb (fun k => scaled_by k (ih - 1) (iw - 1) (oh - 1) (ow - 1)) [dn n 3; dn n 4; dn n 5]
+    else negb (ih =? 0) && negb (iw =? 0) && existsb (fun k => scaled_by k ih iw oh ow) [dn n 3; dn n 4; dn n 5])).
 
 (* "For half_pixel_centers the width and height of the IFM and OFM must match one of the following criteria:
     IFM W and H are both 1
